@@ -169,23 +169,56 @@ def rule_sticky(ctx):
     ctx.floor("true-returning paths of limits_exceeded", n, 3)
 
 
-def classify_conditions(conds):
-    txt = " && ".join(expr_str(c) for c in conds)
-    leaves = [x for c in conds for x in walk(c)]
-    has_clock = any(isinstance(x, tuple) and x[0] == "call" and isinstance(x[1], str) and ("Instant::elapsed" in x[1] or "Instant::now" in x[1]) for x in leaves)
+def cond_kind(c):
+    """One positively-required condition of a true-returning path: 'const' (cannot change during a search),
+    'clock>=limit' / 'nodes>=limit' (monotone), 'ply==MAX', 'ply-vs-depth-limit', or 'other'."""
+    leaves = list(walk(c))
     fields = {x[2:] for x in leaves if isinstance(x, tuple) and x[0] == "field"}
     flat = {f for fs in fields for f in fs}
+    has_clock = any(isinstance(x, tuple) and x[0] == "call" and isinstance(x[1], str) and ("Instant::elapsed" in x[1] or "Instant::now" in x[1]) for x in leaves)
+    reads_info = "info" in flat
+    if not has_clock and not reads_info:
+        # only limits fields / constants: fixed for the whole search
+        return "const"
+    if c[0] == "bin" and c[1] in ("Ge", "Gt"):
+        lhs, rhs = c[2], c[3]
+        lf = {f for x in walk(lhs) if isinstance(x, tuple) and x[0] == "field" for f in x[2:]}
+        rf = {f for x in walk(rhs) if isinstance(x, tuple) and x[0] == "field" for f in x[2:]}
+        lclock = any(isinstance(x, tuple) and x[0] == "call" and isinstance(x[1], str) and "Instant::elapsed" in x[1] for x in walk(lhs))
+        rconst = "info" not in rf and not any(isinstance(x, tuple) and x[0] == "call" and isinstance(x[1], str) and "Instant" in x[1] for x in walk(rhs))
+        plain_l = lhs[0] in ("field", "call")  # the quantity itself, not an arithmetic function of it
+        if lclock and rconst and plain_l and not any(isinstance(x, tuple) and x[0] == "bin" for x in walk(lhs)):
+            return "clock>=limit"
+        if lf >= {"info", "nodes"} and "depth" not in lf and rconst and lhs[0] == "field":
+            return "nodes>=limit"
+        if lf >= {"info", "depth"} and rconst:
+            return "ply-vs-depth-limit"
+    if c[0] == "bin" and c[1] == "Eq" and "depth" in flat and any(isinstance(x, tuple) and x[0] == "const" and x[1] == 255 for x in leaves):
+        return "ply==MAX"
+    return "other"
+
+
+def classify_conditions(conds):
+    kinds = [cond_kind(c) for c in conds]
+    leaves = [x for c in conds for x in walk(c)]
+    fields = {x[2:] for x in leaves if isinstance(x, tuple) and x[0] == "field"}
     lim = sorted({fs[-1] for fs in fields if "limits" in fs and fs[-1] != "limits"})
     suffix = "limits.{%s}" % ",".join(lim) if lim else "const"
-    if "nodes" in flat and "info" in flat and not has_clock:
-        return "nodes>=" + suffix
-    if "depth" in flat and "info" in flat and not has_clock:
-        if not lim:
-            return "ply==MAX"
+    nonconst = [k for k in kinds if k != "const"]
+    if not nonconst:
+        return "const:" + suffix
+    if "other" in nonconst:
+        txt = " && ".join(expr_str(c) for c, k in zip(conds, kinds) if k == "other")
+        return "other(%s)" % txt[:70]
+    if set(nonconst) == {"ply==MAX"}:
+        return "ply==MAX"
+    if "ply-vs-depth-limit" in nonconst or "ply==MAX" in nonconst:
         return "ply>=" + suffix
-    if has_clock:
+    if set(nonconst) == {"nodes>=limit"}:
+        return "nodes>=" + suffix
+    if set(nonconst) <= {"clock>=limit", "nodes>=limit"}:
         return "clock>=" + suffix
-    return "other(%s)" % txt[:60]
+    return "other(%s)" % ",".join(nonconst)
 
 
 def counter_is_monotone(ix, path):
